@@ -1,0 +1,214 @@
+//go:build verif
+
+// Read-only accessors for the private mixedTable, compiled only with the
+// `verif` build tag.  Used by the C03 correspondence harness in /verif.
+// Nothing here mutates a table.
+
+package runtime
+
+import (
+	"fmt"
+	"strconv"
+	"strings"
+)
+
+// VerifHash returns the hash the table implementation computes for v.
+func VerifHash(v Value) uintptr { return v.Hash() }
+
+// VerifKeyHash returns the hash of v after the key normalisation done by
+// mixedTable (integer-valued floats become integers).
+func VerifKeyHash(v Value) uintptr {
+	if i, ok := ToIntNoString(v); ok {
+		v = IntValue(i)
+	}
+	return v.Hash()
+}
+
+// VerifSmallHashTableSize exposes the linear-mode threshold.
+const VerifSmallHashTableSize = smallHashTableSize
+
+// VerifDump renders the whole private state of the table on one line:
+//
+//	A <size|-1> <len> <v>*size H <base|-1> <nextFree|-1> <n> (<key> <val> <nextIndex> <flags> <hash>)*n
+//
+// size -1: nil array; base -1: nil hash table; nextFree -1: noNextFree; an
+// empty slot has key "n"; values and keys are rendered by enc; flags = next&3
+// (1 = hasNext, 2 = chained); hash is key.Hash() (0 for an empty slot).
+func (t *Table) VerifDump(enc func(Value) string) string {
+	var b strings.Builder
+	mt := t.mixedTable
+	b.WriteString("A ")
+	if mt.array == nil {
+		b.WriteString("-1 0")
+	} else {
+		b.WriteString(strconv.Itoa(len(mt.array.values)))
+		b.WriteByte(' ')
+		b.WriteString(strconv.FormatUint(uint64(mt.array.len), 10))
+		for _, v := range mt.array.values {
+			b.WriteByte(' ')
+			b.WriteString(enc(v))
+		}
+	}
+	b.WriteString(" H ")
+	if mt.hashTable == nil {
+		b.WriteString("-1 -1 0")
+	} else {
+		h := mt.hashTable
+		b.WriteString(strconv.Itoa(int(h.base)))
+		b.WriteByte(' ')
+		if h.nextFree == noNextFree {
+			b.WriteString("-1")
+		} else {
+			b.WriteString(strconv.FormatUint(uint64(h.nextFree), 10))
+		}
+		b.WriteByte(' ')
+		b.WriteString(strconv.Itoa(len(h.slots)))
+		for _, it := range h.slots {
+			b.WriteByte(' ')
+			var hash uintptr
+			if it.key.IsNil() {
+				b.WriteString("n")
+			} else {
+				b.WriteString(enc(it.key))
+				hash = it.key.Hash()
+			}
+			b.WriteByte(' ')
+			b.WriteString(enc(it.value))
+			b.WriteByte(' ')
+			b.WriteString(strconv.FormatUint(uint64(it.next>>2), 10))
+			b.WriteByte(' ')
+			b.WriteString(strconv.FormatUint(uint64(it.next&nextFlags), 10))
+			b.WriteByte(' ')
+			b.WriteString(strconv.FormatUint(uint64(hash), 10))
+		}
+	}
+	return b.String()
+}
+
+// VerifCheckInvariants checks the structural invariants of the array part and
+// of the hash part (I1 finite chains, I2 same primary slot along a chain, I3
+// chain head in its primary slot, nextFree = highest empty slot, no duplicate
+// keys, normalised keys disjoint from the array range).  Read-only.
+func (t *Table) VerifCheckInvariants() error {
+	mt := t.mixedTable
+	var asize int64
+	if a := mt.array; a != nil {
+		asize = int64(len(a.values))
+		if a.len > uintptr(len(a.values)) {
+			return fmt.Errorf("array: len %d > size %d", a.len, len(a.values))
+		}
+		if a.len > 0 && a.values[a.len-1].IsNil() {
+			return fmt.Errorf("array: values[len-1] is nil (len=%d)", a.len)
+		}
+		for i := int(a.len); i < len(a.values); i++ {
+			if !a.values[i].IsNil() {
+				return fmt.Errorf("array: non-nil value at index %d above len %d", i+1, a.len)
+			}
+		}
+	}
+	h := mt.hashTable
+	if h == nil {
+		return nil
+	}
+	n := uintptr(len(h.slots))
+	if n != uintptr(1)<<h.base {
+		return fmt.Errorf("hash: %d slots but base %d", n, h.base)
+	}
+	mask := n - 1
+	// nextFree
+	if h.nextFree != noNextFree {
+		if h.nextFree >= n {
+			return fmt.Errorf("hash: nextFree %d out of range", h.nextFree)
+		}
+		if !h.slots[h.nextFree].isEmpty() {
+			return fmt.Errorf("hash: slot nextFree=%d is not empty", h.nextFree)
+		}
+	}
+	for i := uintptr(0); i < n; i++ {
+		if (h.nextFree == noNextFree || i > h.nextFree) && h.slots[i].isEmpty() {
+			return fmt.Errorf("hash: empty slot %d above nextFree", i)
+		}
+	}
+	preds := make([]int, n)
+	for i := uintptr(0); i < n; i++ {
+		it := h.slots[i]
+		if it.isEmpty() {
+			if !it.value.IsNil() || it.next != 0 {
+				return fmt.Errorf("hash: empty slot %d has a value or a next field", i)
+			}
+			continue
+		}
+		if f, ok := it.key.TryFloat(); ok {
+			if _, isInt := ToIntNoString(it.key); isInt || f != f {
+				return fmt.Errorf("hash: slot %d holds a float key that is not normalised", i)
+			}
+		}
+		if k, ok := it.key.TryInt(); ok && 1 <= k && k <= asize {
+			return fmt.Errorf("hash: slot %d holds integer key %d inside the array range %d", i, k, asize)
+		}
+		for j := uintptr(0); j < i; j++ {
+			if !h.slots[j].isEmpty() && h.slots[j].key.Equals(it.key) {
+				return fmt.Errorf("hash: duplicate key in slots %d and %d", j, i)
+			}
+		}
+		if mask < smallHashTableSize {
+			continue
+		}
+		p := it.key.Hash() & mask
+		if !it.isChained() && p != i {
+			return fmt.Errorf("hash: unchained slot %d not in its primary slot %d (I3)", i, p)
+		}
+		if it.isChained() && p == i {
+			return fmt.Errorf("hash: chained slot %d is its own primary slot", i)
+		}
+		if it.hasNext() {
+			nx := it.nextIndex()
+			if nx >= n {
+				return fmt.Errorf("hash: slot %d next %d out of range", i, nx)
+			}
+			nit := h.slots[nx]
+			if nit.isEmpty() || !nit.isChained() {
+				return fmt.Errorf("hash: slot %d -> %d which is empty or not flagged chained", i, nx)
+			}
+			if nit.key.Hash()&mask != p {
+				return fmt.Errorf("hash: slot %d -> %d with a different primary slot (I2)", i, nx)
+			}
+			preds[nx]++
+		}
+		// reachable from the primary slot in at most n steps (I1 + I3)
+		j, steps, found := p, uintptr(0), false
+		for steps <= n {
+			if j == i {
+				found = true
+				break
+			}
+			jt := h.slots[j]
+			if !jt.hasNext() || jt.nextIndex() >= n {
+				break
+			}
+			j = jt.nextIndex()
+			steps++
+		}
+		if !found {
+			return fmt.Errorf("hash: slot %d not reachable from its primary slot %d", i, p)
+		}
+		if h.slots[p].isEmpty() || h.slots[p].isChained() {
+			return fmt.Errorf("hash: primary slot %d of slot %d is empty or chained", p, i)
+		}
+	}
+	if mask >= smallHashTableSize {
+		for i := uintptr(0); i < n; i++ {
+			it := h.slots[i]
+			if it.isEmpty() {
+				continue
+			}
+			if it.isChained() && preds[i] != 1 {
+				return fmt.Errorf("hash: chained slot %d has %d predecessors", i, preds[i])
+			}
+			if !it.isChained() && preds[i] != 0 {
+				return fmt.Errorf("hash: unchained slot %d has %d predecessors", i, preds[i])
+			}
+		}
+	}
+	return nil
+}
